@@ -105,7 +105,7 @@ PROPERTIES["C16"] = {
     + [MH("c16_clear_%d_%d" % s, inputs="signature header with %d entries / %d symbolic store bytes" % s, bounds="Header::clear() then offsets vs written bytes", timeout=300)
        for s in ((1, 4), (2, 9), (0, 0), (1, 16))]
     + [MH("c16_woff_k%d" % k, inputs="package with 2-entry signature header (3 padding bytes), 1-entry main header, 3 payload bytes, contents symbolic", timeout=600,
-          bounds="Package::write into a sink accepting %d byte(s) per call, then get_package_segment_offsets vs the positions in the bytes the sink received" % k) for k in (1, 2, 3, 5)]
+          bounds="Package::write into a sink accepting %d byte(s) per call, then get_package_segment_offsets vs the positions in the bytes the sink received" % k, covers_unsat_ok=["write fails"]) for k in (1, 2, 3, 5)]
     + [H("c16_twin", role="twin", timeout=60)],
     "bounds": "arithmetic: all intro field values with each header below 2^31 bytes; bytes: headers of one entry, store sizes 0..9 (every residue mod 8), payload 0..3 bytes",
     "outside": "headers >= 2^31 bytes (u32 overflow in the sum); the invariant num_entries == index_entries.len() and data_section_size == store.len() that links the arithmetic to real packages is established by parse/from_entries (C01/C09 harnesses) and assumed here",
@@ -394,6 +394,9 @@ PROPERTIES["C11"] = {
                                              ("user1", "one file owned by a:g: content byte, mtime, source date symbolic", 600, "quick"),
                                              ("user2", "two files owned by a:g and b:h: content bytes, mtimes, source date symbolic", 900, "quick"),
                                              ("user3", "three files owned by a:g, b:h, c:g", 1800, "quick"),
+                                             ("dirs2", "two root-owned files in two directories (/d/f0, /e/f1)", 900, "quick"),
+                                             ("late_sd", "two files, the source date set after the files were added", 900, "quick"),
+                                             ("dirs3", "three files in three directories at different depths, one owned by a:g", 3600, "thorough"),
                                              ("sym2", "two files whose owner and group names are symbolic lower-case letters (every combination)", 7200, "thorough"))],
     "bounds": "up to three files with one content byte each; no compression; unsigned build; user/group names literal (quick) or one symbolic letter (thorough); source date, modification times symbolic",
     "outside": "across processes (the model makes every HashSet iteration order and every clock reading arbitrary, which covers what a fresh process changes for this code, but TZ, working directory and the "
@@ -417,6 +420,8 @@ PROPERTIES["C06"] = {
        MH("c06_scriptlets_prog", inputs="eight scriptlets: text 2 symbolic characters, flags any u32, interpreter of two 1-character words", bounds="scriptlet setters vs scriptlet accessors", timeout=900),
        MH("c06_scriptlets_plain", inputs="eight scriptlets: text 2 symbolic characters, flags any u32, no interpreter", bounds="scriptlet setters vs scriptlet accessors", timeout=900),
        MH("c06_deps_all", inputs="two dependencies per kind (eight kinds): name, version 1 symbolic character, flags any u32", bounds="dependency setters vs accessors (in order, among the builder's own entries)", timeout=900),
+       MH("c06_with_file_inherit", inputs="stubbed source file: content byte, st_mode (any regular-file mode), mtime symbolic", bounds="with_file with the mode inherited from the source file", timeout=600),
+       MH("c06_with_file_explicit", inputs="stubbed source file plus an explicit mode (any permission bits)", bounds="with_file with an explicit mode", timeout=600),
        MH("c06_files_1", inputs="one file: permission bits, flags, mtime, content byte, source date symbolic", bounds="add_data vs get_file_entries", timeout=900),
        MH("c06_files_2", inputs="two files: permission bits, flags, mtimes, content bytes, source date symbolic", bounds="add_data vs get_file_entries", timeout=1800)],
     "bounds": "strings of 1 symbolic printable ASCII character (scriptlet text 2); every u32 for epoch and flag words; up to two files with one content byte; no compression; unsigned",
